@@ -1005,7 +1005,7 @@ fn clear_sort_env() { std::env::remove_var("SORTABLE_CACHE_BLOCK"); std::env::re
 
 /// ops [code, arg]: 0 push(String), 1 push_str, 2 sort_lexicographic, 3 sort, 4 radix_sort, 5 sort_by_length, 6 sort_by(comparator
 /// arg.len() % 3), 7 clear, 8 reserve, 9 shrink_to_fit, 10 continue with a clone (the original is checked at the end), 11 stats,
-/// 12 into ZoSortedStrVec, 13 binary_search(arg).  ctor: 0 new, 1 with_capacity, 2 default, 3 from_iter(init).
+/// 12 into ZoSortedStrVec, 13 binary_search(arg), 14 a refused push / push_str of a 2^20-byte string.  ctor: 0 new, 1 with_capacity, 2 default, 3 from_iter(init).
 /// {cell: sorthist, ctor, block?, prefetch?, init, ops}
 pub fn sort_hist(cx: &mut Ctx, c: &Value) {
     let cell = "SortableStrVec";
@@ -1054,6 +1054,14 @@ pub fn sort_hist(cx: &mut Ctx, c: &Value) {
                             Ok(z) => if !z.iter().eq(sorted.iter().map(|s| s.as_str())) || z.len() != sorted.len() { bad.push(format!("{}: ZoSortedStrVec::from_sortable_str_vec enumerates {}, want {}", what, clip_v(&z.iter().map(|s| s.to_string()).collect::<Vec<_>>()), clip_v(&sorted))); }
                         }
                     }
+                    Ok(())
+                }
+                14 => {
+                    // a string the compact entry cannot describe (2^20 bytes): refused, and a refused push changes nothing - the
+                    // vector stays sorted the way it was (observed right below)
+                    let long = "x".repeat(1 << 20);
+                    let r = if arg.len() % 2 == 0 { v.push(long.clone()) } else { v.push_str(&long) };
+                    if r.is_ok() { items.push(long); mode = 0; }
                     Ok(())
                 }
                 _ => { if mode == 1 { let mut sorted = items.clone(); sorted.sort(); check_search2(&what, &sorted, arg, v.binary_search(arg), &mut bad); } Ok(()) }
@@ -1428,13 +1436,19 @@ pub fn per_iteration(cx: &mut Ctx, rng: &mut Rng, i: usize, words_text: &[u8], u
         let spool = ["", "", "a", "a", "aa", "ab", "abc", "b", "ba", "c", "é", "éa", "\u{7f}", "€", "Z", "a b", "B", "common/prefix/b", "common/prefix/"];
         let init: Vec<String> = (0..rng.below(7)).map(|_| rng.pick(&spool).to_string()).collect();
         let ops: Vec<Value> = (0..rng.range(2, 9)).map(|_| {
-            let code = *rng.pick(&[0u64, 1, 1, 1, 2, 3, 4, 5, 5, 6, 6, 7, 8, 9, 10, 11, 12, 13, 13]);
+            let code = *rng.pick(&[0u64, 1, 1, 1, 2, 3, 4, 5, 5, 6, 6, 7, 8, 9, 10, 11, 12, 13, 13, 14]);
             json!([code, rng.pick(&spool)])
         }).collect();
         let mut c = json!({"cell": "sorthist", "ctor": rng.below(4), "init": init, "ops": ops});
         if rng.chance(1, 2) { c["block"] = json!(rng.below(5)); }
         if rng.chance(1, 4) { c["prefetch"] = json!(0); }
         sort_hist(cx, &c);
+    }
+    // a refused push right after each kind of sort, then a search (every fourth round)
+    if i % 4 == 1 {
+        let init: Vec<String> = ["b", "", "common/prefix/", "a", "ab", "é", "aa"].iter().map(|s| s.to_string()).collect();
+        let sort = *rng.pick(&[2u64, 3, 4, 5, 6]);
+        sort_hist(cx, &json!({"cell": "sorthist", "ctor": rng.below(4), "init": init, "ops": [[sort, "ab"], [14, rng.pick(&["", "a"])], [13, "ab"], [13, "a"], [1, "c"], [sort, ""], [14, "a"], [13, "c"]]}));
     }
     // --- unicode: remaining helpers, cursor histories
     if i % 2 == 0 {
